@@ -73,6 +73,7 @@ class PathState(object):
         self.fresh = 0
         self.obligations = []
         self.global_writes = {}
+        self.overlay = {}        # (Obj term id, field) -> (term, value): writes to symbolic objects
         self.notes = []
 
 
